@@ -127,7 +127,7 @@ impl HuffScen {
                 1 => matches!(o, "just-pushed-item-differs" | "just-pushed-differs" | "push-refused-inside-statistics" | "refused-representable-input" | "merge-panicked"),
                 2 => matches!(o, "earlier-item-differs"),
                 // C14: region-to-region pushes of read items must be accepted and read back equal
-                14 => matches!(o, "just-pushed-item-differs" | "push-refused-inside-statistics" | "merge-panicked"),
+                14 | 20 => matches!(o, "just-pushed-item-differs" | "push-refused-inside-statistics" | "merge-panicked" | "bits-not-sum-of-code-lengths"),
                 // C04 is about the strings handed out: read-back oracles only
                 4 => matches!(o, "just-pushed-differs" | "earlier-item-differs"),
                 _ => true,
@@ -494,6 +494,36 @@ impl Scenario for HuffScen {
         let n = 4 + rng.below(if thorough { 120 } else { 40 });
         let item_max = *rng.pick(&[3usize, 8, 20, 40]);
         let mut trained = false;
+        // structured opening: a container fed *only* by read items of another (coded or raw)
+        // container becomes the sole source of the next generation
+        if rng.chance(1, if matches!(self.prop, 14 | 20) { 3 } else { 10 }) {
+            let kk = 2 + rng.below(6) as u32;
+            ops.push(HOp::Train { t: 0, profile: 1, k: kk });
+            let coded_src = rng.coin();
+            if coded_src {
+                ops.push(HOp::Merge { srcs: vec![0] }); // 1: coded, holds one item per symbol
+            } else {
+                ops.push(HOp::Clone { t: 0 }); // 1: raw copy
+            }
+            if rng.coin() {
+                ops.push(HOp::Merge { srcs: vec![0] }); // 2: coded receiver
+            } else {
+                ops.push(HOp::Merge { srcs: vec![] }); // 2: receiver with an empty table
+                ops.push(HOp::Clear { t: 2 }); // ... turned raw
+            }
+            for j in 0..(2 + rng.below(8)) {
+                ops.push(HOp::Copy { src: 1, h: j * 7 + rng.below(7), dst: 2, via_owned: rng.chance(1, 4) });
+            }
+            ops.push(HOp::Merge { srcs: vec![2] }); // 3: built from the receiver's statistics alone
+            for _ in 0..4 {
+                let len = 1 + rng.below(4);
+                ops.push(HOp::Push { t: 3, item: (0..len).map(|_| rng.below(kk as usize) as u32).collect(), form: 0 });
+            }
+            for j in 0..3 {
+                ops.push(HOp::Copy { src: 2, h: j, dst: 3, via_owned: false });
+            }
+            trained = true;
+        }
         for i in 0..n {
             let wcopy = if self.prop == 14 { 40 } else { 6 };
             let c = if i == 0 { 0 } else if !trained { rng.below(3) } else { rng.weighted(&[1, 60, if self.prop == 14 { 16 } else { 8 }, 3, 3, wcopy]) };
